@@ -29,7 +29,7 @@ ASSUMPTIONS = ["a 'constant' input is an array of one repeated value (zero varia
                "|x| kept within 1e-100..1e140 so that sums of squares neither overflow nor underflow",
                "+-1 tolerated iff the reference pre-rounding value is within 1e-9 of a rounding boundary"]
 PROBES = ["refresh_skipped", "refresh_taken_later_call", "zero_variance_input", "custom_std_used",
-          "ncalc_shorter_than_input", "clipped_values", "two_d_input", "period_nonpositive"]
+          "ncalc_shorter_than_input", "clipped_values", "two_d_input", "period_nonpositive", "rejected_call"]
 
 KINDS = ["gauss", "gauss", "gauss", "const", "two", "ramp", "huge", "tiny", "len1", "2d", "pedestal"]
 
@@ -89,6 +89,9 @@ def generate(rng, tier):
             if rng.random() < 0.5:
                 op["y"] = gen_input(rng)       # imaginary part for complex quantisers
             ops.append(op)
+        elif r < 0.76:
+            # a call the quantiser must reject: it is not a call of the refresh schedule and leaves the estimates alone
+            ops.append({"op": "reject", "q": q, "how": rng.choice(["none", "pair_custom"])})
         elif r < 0.80:
             ops.append({"op": "reset", "q": q})
         elif r < 0.88:
@@ -224,6 +227,8 @@ def execute(sc, ctx):
 
 def _step(qz, objs, op, ctx):
     kind = op["op"]
+    if kind in ("q", "reset", "target") and objs[op["q"] % len(objs)].get("dead"):
+        return
     if kind == "q":
         S = objs[op["q"] % len(objs)]
         o, spec = S["o"], S["spec"]
@@ -267,6 +272,25 @@ def _step(qz, objs, op, ctx):
         S["calls"] += 1
         if S["calls"] >= 2:
             ctx.nontrivial = True
+    elif kind == "reject":
+        S = objs[op["q"] % len(objs)]
+        o = S["o"]
+        try:
+            if op["how"] == "none":
+                o.quantize(None)
+            elif S["spec"]["cls"] == "real":
+                o.quantize(np.arange(8.0), custom_std=[1.0, 2.0])      # a pair where a scalar is required
+            else:
+                o.quantize(np.arange(8.0) + 0j, custom_stds=[1.0, 2.0, 3.0])
+            raised = False
+        except Exception:
+            raised = True
+        ctx.event("reject", op["q"], raised)
+        if raised:
+            ctx.fired("rejected_call")
+        else:
+            ctx.hit("invalid_call_accepted")
+            S["dead"] = True
     elif kind == "reset":
         S = objs[op["q"] % len(objs)]
         S["o"]._reset_cache()
